@@ -911,7 +911,7 @@ func (c *c20xCase) stepRace(r *vRand, t1Secs []c20SecRaw) {
 	w.start()
 	for s := range c.good { // the new process knows nothing of earlier texts; it will see T1 (read or late Create event), then T2
 		c.good[s], c.goodAlt[s] = c20Good{absent: true}, c20Good{absent: true}
-		if t1Secs[s].state == 2 {
+		if t1 != nil && t1Secs[s].state == 2 {
 			cp := c20xCopySec(t1Secs[s])
 			c.good[s], c.goodAlt[s] = c20Good{sec: cp}, c20Good{sec: cp}
 		}
@@ -928,10 +928,14 @@ func (c *c20xCase) stepRace(r *vRand, t1Secs []c20SecRaw) {
 	data, ident := c.buildData()
 	t2 := c20xNewCMObj(data)
 	writeT2 := func() {
-		got := &corev1.ConfigMap{}
-		w.must(w.cl.Get(c.ctx, types.NamespacedName{Namespace: sloconfig.ConfigNameSpace, Name: sloconfig.SLOCtrlConfigMap}, got), "get cm")
-		got.Data = data
-		w.must(w.cl.Update(c.ctx, got), "update cm")
+		if t1 == nil { // no ConfigMap so far: the racing change is its creation
+			w.must(w.cl.Create(c.ctx, c20xNewCMObj(data)), "create cm")
+		} else {
+			got := &corev1.ConfigMap{}
+			w.must(w.cl.Get(c.ctx, types.NamespacedName{Namespace: sloconfig.ConfigNameSpace, Name: sloconfig.SLOCtrlConfigMap}, got), "get cm")
+			got.Data = data
+			w.must(w.cl.Update(c.ctx, got), "update cm")
+		}
 		w.cmObj = t2
 	}
 	handlerPanicked := false
@@ -941,6 +945,10 @@ func (c *c20xCase) stepRace(r *vRand, t1Secs []c20SecRaw) {
 				handlerPanicked = true
 			}
 		}()
+		if t1 == nil {
+			w.handler.Create(c.ctx, event.TypedCreateEvent[client.Object]{Object: t2.DeepCopy()}, w.q)
+			return
+		}
 		w.handler.Create(c.ctx, event.TypedCreateEvent[client.Object]{Object: t1.DeepCopy()}, w.q)
 		w.handler.Update(c.ctx, event.TypedUpdateEvent[client.Object]{ObjectOld: t1.DeepCopy(), ObjectNew: t2.DeepCopy()}, w.q)
 	}
@@ -984,8 +992,14 @@ func (c *c20xCase) stepRace(r *vRand, t1Secs []c20SecRaw) {
 	}
 	w.must(rerr, "reconcile "+req.Name)
 	h.Op("hrec %d", nm)
-	h.Op("hcmlate")
-	h.Op("hev 2 %s", vIntsI(ident))
+	if t1 == nil {
+		h.Tag("hrace:configmap-created")
+		h.Op("hev 1 %s", vIntsI(ident))
+	} else {
+		h.Tag("hrace:configmap-updated")
+		h.Op("hcmlate")
+		h.Op("hev 2 %s", vIntsI(ident))
+	}
 	for s := 0; s < 5; s++ {
 		switch st := c20EmitSection(h, s, c.cur[s], c.fail); {
 		case st == 0:
@@ -1181,8 +1195,11 @@ func c20xRandomHistory(c *c20xCase, r *vRand, race bool) {
 		if kind == "cmdel" && w.cmObj == nil {
 			kind = "cm"
 		}
-		if race && !raced && stp >= len(forced) && w.cmObj != nil && len(c.nodes) > 0 && (stp == nSteps-1 || r.Chance(1, 2)) {
+		if race && !raced && stp >= len(forced) && len(c.nodes) > 0 && (stp == nSteps-1 || r.Chance(1, 2)) {
 			kind = "race"
+			if w.cmObj != nil && r.Chance(1, 6) { // the ConfigMap is deleted first: the racing change will be its creation
+				c.stepCMDelete()
+			}
 		}
 		names := c.names()
 		switch kind {
@@ -1433,6 +1450,37 @@ func TestVerifC20HistExhaustive(t *testing.T) {
 	for _, sec := range []int{1, 3, 4} {
 		run(sec, nil)
 	}
+	// every lazy-init race in the same scope: the superseded ConfigMap (none / T0..T4) x the racing update to a parsable
+	// text (T0 / T1 / T2) x one node with la=x or la=y
+	for _, sec := range []int{1, 3, 4} {
+		for a := -1; a <= 4; a++ {
+			for b := 0; b <= 2; b++ {
+				for lab := 1; lab <= 2; lab++ {
+					r := h.Begin(idx)
+					idx++
+					if r == nil {
+						continue
+					}
+					c := env.newCase(h)
+					h.Tag(fmt.Sprintf("xsec:%s", c20SecNames[sec]))
+					h.Tag("xrace")
+					if a >= 0 {
+						c.cur[sec] = texts(sec, a)
+						c.stepCMWrite(fmt.Sprintf("x-text%d", a))
+					}
+					c.stepNodeAdd(1, map[int]int{1: lab})
+					t1 := make([]c20SecRaw, 5)
+					for s := range t1 {
+						t1[s] = c20xCopySec(c.cur[s])
+					}
+					c.cur[sec] = texts(sec, b)
+					c.stepRace(r, t1)
+					c.finish()
+				}
+			}
+		}
+	}
 	h.Close("EXHAUSTIVE: every history of 1-4 steps over {write text T0 (key removed) / T1 (cluster field) / T2 (cluster + la=x entry) / T3 (unparsable) / T4 (a complete section + trailing junk: not one JSON value), delete ConfigMap, " +
-		"node la=x, node la=y, node delete (or second node), restart cm-first / nodes-first} for each of the sections qos, system, host; non-trivial = a delivered field goes from set to unset")
+		"node la=x, node la=y, node delete (or second node), restart cm-first / nodes-first} for each of the sections qos, system, host; " +
+		"plus every lazy-init race {no ConfigMap / T0..T4} -> {T0, T1, T2} with one node la=x / la=y (108 cases); non-trivial = a delivered field goes from set to unset")
 }
